@@ -491,7 +491,7 @@ func (env *Env) index(v, i Val) Val {
 		} else {
 			env.fail("index of untyped slice")
 		}
-		idx := fmt.Sprintf("(+ (soff %s) %s)", v.T, i.T)
+		idx := fmt.Sprintf("(sidx %s %s)", v.T, i.T)
 		if isStruct(et) {
 			return term(e.mkERef(env.st, et, app("sarr", v.T), idx), SRef, ptrMarker{types.NewPointer(et)})
 		}
@@ -645,6 +645,8 @@ func (e *Engine) specSort(name string, pkg *types.Package) (Sort, types.Type) {
 		return "(Array Int Bool)", nil
 	case "BytesBoolArr":
 		return "(Array Bytes Bool)", nil
+	case "BytesIntArr":
+		return "(Array Bytes Int)", nil
 	}
 	if strings.HasPrefix(name, "(Array ") {
 		return Sort(name), nil
@@ -699,6 +701,15 @@ func (e *Engine) resolveType(name string, pkg *types.Package) types.Type {
 	}
 	if i := strings.LastIndex(name, "."); i >= 0 {
 		pn, tn := name[:i], name[i+1:]
+		if pkg != nil {
+			for _, imp := range pkg.Imports() {
+				if imp.Name() == pn || strings.HasSuffix(imp.Path(), "/"+pn) {
+					if obj := imp.Scope().Lookup(tn); obj != nil {
+						return obj.Type()
+					}
+				}
+			}
+		}
 		for path, sp := range e.pkgByPath {
 			if path == pn || strings.HasSuffix(path, "/"+pn) || sp.Pkg.Name() == pn {
 				if obj := sp.Pkg.Scope().Lookup(tn); obj != nil {
@@ -790,12 +801,38 @@ func (env *Env) call(x *ast.CallExpr) Val {
 			env.fail("%s: first argument must be an identifier", fname)
 		}
 		q := fname
+		// optional trigger(t1, t2, ...) argument just before the body
+		var trig []ast.Expr
+		if len(x.Args) >= 3 {
+			if ce, ok := x.Args[len(x.Args)-2].(*ast.CallExpr); ok {
+				if fid, ok := ce.Fun.(*ast.Ident); ok && fid.Name == "trigger" {
+					trig = ce.Args
+					args := append([]ast.Expr{}, x.Args[:len(x.Args)-2]...)
+					args = append(args, x.Args[len(x.Args)-1])
+					x = &ast.CallExpr{Fun: x.Fun, Args: args}
+				}
+			}
+		}
+		pat := func(sub *Env) string {
+			if len(trig) == 0 {
+				return ""
+			}
+			var ts []string
+			for _, t := range trig {
+				ts = append(ts, sub.materialize(sub.eval(t)).T)
+			}
+			return " :pattern (" + strings.Join(ts, " ") + ")"
+		}
 		if len(x.Args) == 4 {
 			lo, hi := env.eval(x.Args[1]), env.eval(x.Args[2])
 			bv := "q_" + id.Name
-			body := env.sub(map[string]Val{id.Name: term(bv, SInt, types.Typ[types.Int])}).eval(x.Args[3])
+			sub := env.sub(map[string]Val{id.Name: term(bv, SInt, types.Typ[types.Int])})
+			body := sub.eval(x.Args[3])
 			rng := fmt.Sprintf("(and (<= %s %s) (< %s %s))", lo.T, bv, bv, hi.T)
 			if q == "forall" {
+				if p := pat(sub); p != "" {
+					return term(fmt.Sprintf("(forall ((%s Int)) (! (=> %s %s)%s))", bv, rng, body.T, p), SBool, nil)
+				}
 				return term(fmt.Sprintf("(forall ((%s Int)) (=> %s %s))", bv, rng, body.T), SBool, nil)
 			}
 			return term(fmt.Sprintf("(exists ((%s Int)) (and %s %s))", bv, rng, body.T), SBool, nil)
@@ -804,7 +841,11 @@ func (env *Env) call(x *ast.CallExpr) Val {
 			sn := exprString(x.Args[1])
 			s, typ := e.specSort(sn, env.pkg)
 			bv := "q_" + id.Name
-			body := env.sub(map[string]Val{id.Name: term(bv, s, typ)}).eval(x.Args[2])
+			sub := env.sub(map[string]Val{id.Name: term(bv, s, typ)})
+			body := sub.eval(x.Args[2])
+			if p := pat(sub); p != "" {
+				return term(fmt.Sprintf("(%s ((%s %s)) (! %s%s))", q, bv, s, body.T, p), SBool, nil)
+			}
 			return term(fmt.Sprintf("(%s ((%s %s)) %s)", q, bv, s, body.T), SBool, nil)
 		}
 		env.fail("%s: wrong number of arguments", fname)
@@ -849,6 +890,20 @@ func (env *Env) call(x *ast.CallExpr) Val {
 			v = term(e.d.Zero(es, nil), es, nil)
 		}
 		return term(store(a.T, i.T, v.T), a.S, a.Typ)
+	case "at":
+		// at(s, p): element of slice s at ABSOLUTE backing-array position p (quantify p over off(s) .. off(s)+len(s))
+		argn(2)
+		v := env.materialize(env.eval(x.Args[0]))
+		pp := env.eval(x.Args[1])
+		if v.S != SSlice || v.Typ == nil {
+			env.fail("at: not a slice")
+		}
+		et := elemType(v.Typ)
+		if isStruct(et) {
+			return term(e.mkERef(env.st, et, app("sarr", v.T), pp.T), SRef, ptrMarker{types.NewPointer(et)})
+		}
+		es := e.d.SortOf(et)
+		return env.typed(term(sel(sel(env.heapGet(e.d.ElemHeapT(et)), app("sarr", v.T)), pp.T), es, et))
 	case "off":
 		argn(1)
 		v := env.materialize(env.eval(x.Args[0]))
